@@ -141,11 +141,15 @@ TSpec == TInit /\ [][TNext]_<<ovars, tid, l>>
 
 (* C04 on the observed, accepted state: weights = what the REAL Species objects report (elements, charge) *)
 W == Traces[tid].weights
+(* every invariant is judged on its own (a set filter evaluates all of its members): a right-hand side that is not the mass-action law
+   (C01) is STILL asked whether it conserves elements and charge (C04) *)
+TrackClause(i) ==
+  CASE i = 1 -> Chk("Inv:RhsIsMassAction", RhsIsMassAction)
+    [] i = 2 -> Chk("Inv:JacIsDerivative", pc \in {"done", "observed"} => \A c \in DOMAIN jac : jac[c] = D(c[2], rhs[c[1]]))
+    [] i = 3 -> Chk("Inv:OmittedIsZero", pc = "observed" => \A c \in (Eqs(N) \X Eqs(N)) \ DOMAIN jac : D(c[2], rhs[c[1]]) = EmptyPoly)
+    [] i = 4 -> Chk("Inv:Conservation", pc \in {"done", "observed"} => \A n \in DOMAIN W : Balanced(N, W[n]) => Conserves(N, W[n]))
 Track ==
-  /\ Chk("Inv:RhsIsMassAction", RhsIsMassAction)
-  /\ Chk("Inv:JacIsDerivative", pc \in {"done", "observed"} => \A c \in DOMAIN jac : jac[c] = D(c[2], rhs[c[1]]))
-  /\ Chk("Inv:OmittedIsZero", pc = "observed" => \A c \in (Eqs(N) \X Eqs(N)) \ DOMAIN jac : D(c[2], rhs[c[1]]) = EmptyPoly)
-  /\ Chk("Inv:Conservation", pc \in {"done", "observed"} => \A n \in DOMAIN W : Balanced(N, W[n]) => Conserves(N, W[n]))
+  /\ {i \in 1..4 : ~TrackClause(i)} = {}
   /\ TLCSet(tid, IF l > TLCGet(tid) THEN l ELSE TLCGet(tid))
 
 Verdicts == \A i \in 1..NT : PrintT(<<"VERDICT", Traces[i].tid, TLCGet(i), Len(Traces[i].ev) + 1>>)
